@@ -16,7 +16,8 @@ PROP = dict(
         dict(name="tsan-histories", harness="c04_signal", flavour="tsan", mode="random", quick=600, thorough=40000, args=_A + ["--only-raise", "1"], case_timeout=20,
              seed_offset=7919, concurrent=True),
     ],
-    rule=("histories: 1-3 real loops (epoll/select), each on its own thread; 1-4 of the signals SIGUSR1 SIGUSR2 SIGHUP SIGRTMIN+3..5, each given a seeded "
+    rule=("histories: 1-3 real loops (epoll/select), each on its own thread - in one history of six 9-24 loops, (nearly) every one with an event on the same "
+          "signal enabled in a seeded order before the history churns them; 1-4 of the signals SIGUSR1 SIGUSR2 SIGHUP SIGRTMIN+3..5, each given a seeded "
           "disposition before the first subscription (SIG_DFL, SIG_IGN, SIG_DFL stored with SA_SIGINFO, two sa_handler sentinels, two SA_SIGINFO sentinels; flags from "
           "{0, RESTART, NODEFER, RESTART|ONSTACK, NODEFER|RESTART}; a random sa_mask); in one case of three some events are created/enabled (and signals raised) "
           "before the loop threads exist; then 20-60 steps: create (initialize(int) / std::set / initializer_list; persistent, one-shot, persistent that "
@@ -56,7 +57,8 @@ PROP = dict(
                                "first_subscribe_install", "last_unsubscribe_restore_checked", "restore_checked_old_DFL", "restore_checked_old_IGN",
                                "restore_checked_old_handler", "restore_checked_old_siginfo", "restore_checked_old_DFL_with_SA_SIGINFO",
                                "restore_checked_old_IGN_with_SA_SIGINFO", "disposition_changed_between_cycles",
-                               "subscribe_second_loop_joins", "unsubscribe_loop_leaves_others_remain", "deliveries_to_2_loops", "deliveries_to_3_loops",
+                               "subscribe_second_loop_joins", "unsubscribe_loop_leaves_others_remain", "deliveries_to_2_loops", "deliveries_to_3_loops", "scenarios_wide_loop_population", "scenarios_with_more_than_8_loops_on_one_signal",
+                               "max_loops_subscribed_to_one_signal", "deliveries_to_more_than_8_loops", "deliveries_to_more_than_16_loops",
                                "deliveries_raised_on_a_loop_thread", "deliveries_before_loop_started", "subscriptions_before_loop_started",
                                "oneshot_fired", "oneshot_multi_signal_fired", "restore_triggered_from_inside_dispatch", "window_reaction_may_overlap_handler",
                                "bursts_over_one_pipe_read", "loop_first_subscription_pipe_created", "loop_last_subscription_pipe_closed",
